@@ -14,6 +14,7 @@ import shutil
 import subprocess
 
 import gen
+from scx import El
 import p_c01
 import usimlib
 from tracelib import *
@@ -47,6 +48,12 @@ class Context(object):
 def gen_plan(seed, k):
     rp = usimlib.substream(seed, "plan")
     root = p_c01.gen_chart(rp, "null", {"late": False, "delayed_internal": False, "hist_p": 0.3})
+    # the data a done event carries: some of the nested final states have <donedata>, others have none
+    nd = 0
+    for e in list(root.walk()):
+        if e.tag == "final" and e.parent is not root and rp.random() < 0.5:
+            nd += 1
+            e.add(El("donedata", children=[El("content", text="dd%d" % nd)]))
     ops = [{"op": "create", "i": 0, "chart": "main", "engine": "default"}, {"op": "validate", "i": 0},
            {"op": "transform", "i": 0, "kind": "c", "full": True}]
     ops += p_c01.history_ops(rp, many=(True if (root.meta or {}).get("par_bias") and rp.random() < 0.8 else None))
@@ -106,7 +113,10 @@ def interp_stream(plan, res):
                 last_cfg = cfg
                 pending = False
         elif s == intq and kd == "enq<":
-            out.append(("r", r[6]["name"]))
+            nm = r[6]["name"]
+            if nm.startswith("done.state.") and r[6].get("data"):
+                nm += " dd=" + r[6]["data"].strip('"')
+            out.append(("r", nm))
             pending = True
         elif s == dlyq and kd == "dly<":
             delayed.add(r[7])
